@@ -9,12 +9,19 @@ import SlipVerif.Driver.Util
      V<n>:<tag> (defvar n tag)   W<n> (defvar n)   S<n>:<tag> (setq n tag)   F<n>:<tag> (defun n … tag)
      M<n> (makunbound n)         K<n> (fmakunbound n)
      G<n>:<tag>:<0|1>  Package.Define of a Go function n in the current package (1 = exported)
+     Q<q>:<n>:<0|1>:<tag>  (setq q:n tag) / (setq q::n tag) (1 = two colons)
+     D<q>:<n>:<0|1>:<tag|->  (defvar q:n [tag]) / (defvar q::n [tag])
+     H<q>:<n>:<tag>  (defun q::n … tag)    N<q>:<n>  (unintern 'n 'q)    T<q>:<n>  (intern "n" 'q)
      O   observe: emits one block
    reply: ok <block>|<block>|…   a block lists, for every current package c < npk:
-     for n < nnm:  var(c,n) fboundp(c,n) call(c,n)
+     for n < nnm:  var(c,n) fboundp(c,n) call(c,n) status(c,n)
      for q < npk, n < nnm:  q:n(var) q::n(var) (q:n)(fun) (q::n)(fun)
-   each item: a tag, `-` (unbound / undefined), `t`/`f` for fboundp, `?` when the property does not
-   constrain the qualified lookup (q only inherits n; or a private q:n function looked up from q itself). -/
+   each item: a tag, `-` (unbound / undefined), `t`/`f` for fboundp, status 0..3 (find-symbol: none,
+   :internal, :external, :inherited), `?` when the property does not constrain the qualified lookup
+   (q only inherits n; or a private q:n function looked up from q itself). Where c has no own
+   definition and two or more used packages export n (a name conflict; the property allows either
+   exporter, `lookup_sound`) var/call list the alternatives `a~b`: first the exporter the repaired
+   implementation picks, then the other candidates' values. -/
 namespace SlipVerif.Driver.Pkg
 open SlipVerif.Pkg
 
@@ -39,6 +46,13 @@ def parseOp (tok : String) : Option (Option Op) :=   -- some none = observe
   | "M", [n] => do some (some (.makunbound (← n.toNat?)))
   | "K", [n] => do some (some (.fmakunbound (← n.toNat?)))
   | "G", [n, v, e] => do some (some (.gdefine (← n.toNat?) (← v.toNat?) ((← e.toNat?) != 0)))
+  | "Q", [q, n, pr, v] => do some (some (.qsetq (← q.toNat?) (← n.toNat?) ((← pr.toNat?) != 0) (← v.toNat?)))
+  | "D", [q, n, pr, v] =>
+    if v == "-" then do some (some (.qdefvar (← q.toNat?) (← n.toNat?) ((← pr.toNat?) != 0) none))
+    else do some (some (.qdefvar (← q.toNat?) (← n.toNat?) ((← pr.toNat?) != 0) (some (← v.toNat?))))
+  | "H", [q, n, v] => do some (some (.qdefun (← q.toNat?) (← n.toNat?) (← v.toNat?)))
+  | "N", [q, n] => do some (some (.unintern (← q.toNat?) (← n.toNat?)))
+  | "T", [q, n] => do some (some (.intern (← q.toNat?) (← n.toNat?)))
   | _, _ => none
 
 def showVal : Option Nat → String
@@ -51,11 +65,21 @@ def constrained (t : Tab) (q : Pk) (n : Nm) : Bool :=
   | none => true
   | some o => o == q
 
+/-- the lookup result, followed by the values of the other candidates when the graph leaves a
+    choice (no own definition, two or more directly used packages export the name) -/
+def withAlts (t : Tab) (uses : Pk → List Pk) (c : Pk) (n : Nm) (got : Option Nat) : String :=
+  let cands := candidates t.defs uses c n
+  if (t.defs c n).isNone && cands.length ≥ 2 then
+    let vals := (cands.map fun q => showVal ((t.defs q n).bind (·.val))).eraseDups
+    "~".intercalate (showVal got :: vals.filter (· != showVal got))
+  else showVal got
+
 def observe (s : State) (npk nnm : Nat) : String :=
   let items : List String :=
     (List.range npk).flatMap fun c =>
       ((List.range nnm).flatMap fun n =>
-        [showVal (s.v.get c n), (if s.f.has c n then "t" else "f"), showVal (s.f.find c n)]) ++
+        [withAlts s.v s.uses c n (s.v.get c n), (if s.f.has c n then "t" else "f"),
+         withAlts s.f s.uses c n (s.f.find c n), toString (findSymbol s c n)]) ++
       ((List.range npk).flatMap fun q => (List.range nnm).flatMap fun n =>
         let cv := constrained s.v q n
         let cf := constrained s.f q n
